@@ -189,6 +189,12 @@ impl Ctx {
             inconclusive.push("no samples recorded".to_string());
         }
 
+        // a run that was stopped early by violations may not have retained a sample yet: the
+        // violation witnesses are what it observed
+        if nviol > 0 && coverage.get("samples").and_then(|s| s.as_array()).map(|a| a.is_empty()).unwrap_or(true) {
+            coverage.insert("samples".into(), json!(violations.iter().take(3).map(|v| json!({"violation_witness": v})).collect::<Vec<_>>()));
+        }
+
         // replay files
         self.finished.store(true, Ordering::SeqCst);
         let replay_paths = if nviol > 0 { write_replays(&self.id, self.tier, self.seed, &violations) } else { vec![] };
